@@ -390,3 +390,5 @@ func runLIMIT(e *Env) (*Summary, error) {
 	}
 	return col.Finish(start), nil
 }
+
+func init() { groups["LIMIT"] = runLIMIT }
